@@ -23,6 +23,9 @@
 
 use std::{any::Any, fmt, future::Future, time::Duration};
 
+#[cfg(deadpool_verif)]
+pub mod verif;
+
 /// Enumeration for picking a runtime implementation.
 #[derive(Clone, Copy, Debug, Eq, PartialEq)]
 pub enum Runtime {
@@ -70,6 +73,11 @@ impl Runtime {
         F: FnOnce() -> R + Send + 'static,
         R: Send + 'static,
     {
+        #[cfg(deadpool_verif)]
+        let f = match verif::intercept_spawn_blocking(f) {
+            Ok(join) => return join.await.map_err(SpawnBlockingError::Panic),
+            Err(f) => f,
+        };
         match self {
             #[cfg(feature = "tokio_1")]
             Self::Tokio1 => tokio_1::task::spawn_blocking(f)
@@ -95,6 +103,11 @@ impl Runtime {
     where
         F: FnOnce() + Send + 'static,
     {
+        #[cfg(deadpool_verif)]
+        let f = match verif::intercept_spawn_blocking_background(f) {
+            Ok(()) => return Ok(()),
+            Err(f) => f,
+        };
         match self {
             #[cfg(feature = "tokio_1")]
             Self::Tokio1 => {
